@@ -38,7 +38,10 @@ func (my *cbcCipher) Decrypt(input []byte) []byte {
 func pkcs5Padding(ciphertext []byte, blockSize int) []byte {
 	var padding = blockSize - len(ciphertext)%blockSize
 	var padText = bytes.Repeat([]byte{byte(padding)}, padding)
-	return append(ciphertext, padText...)
+	// 使用新的slice, 避免append写入调用方slice的剩余容量
+	var padded = make([]byte, 0, len(ciphertext)+padding)
+	padded = append(padded, ciphertext...)
+	return append(padded, padText...)
 }
 
 // trim padding tail
